@@ -71,6 +71,17 @@ def install(M):
         specs = None
         if '--' in cargv:
             specs = argv[cargv.index('--') + 1:]
+        # --diff-filter=<letters>: upper case selects, lower case excludes (A added, D deleted, M modified)
+        only, never = None, set()
+        for a in cargv[:cargv.index('--') if '--' in cargv else len(cargv)]:
+            if a is not None and a.startswith('--diff-filter='):
+                for ch in a[len('--diff-filter='):]:
+                    if ch.isupper():
+                        only = (only or set()) | {ch}
+                    else:
+                        never.add(ch.upper())
+            elif a is not None and a.startswith('-') and a not in ('--stdin', '--raw', '-z', '-r', '--no-abbrev', '--no-pager', '--') and not a.startswith('--diff-filter'):
+                raise Unsupported('diff-tree model: option %s is not modelled' % a)
         raw = [(b.v if isinstance(b, Sc) and b.concrete else b) for b in elems_of(args[1])]
         sb = concrete_bytes(raw)
         if sb is None:
@@ -90,6 +101,9 @@ def install(M):
             for pname in sorted(paths):
                 if a.get(pname) == b.get(pname):
                     continue
+                status = 'D' if b.get(pname) is None else ('A' if a.get(pname) is None else 'M')
+                if status in never or (only is not None and status not in only):
+                    continue
                 pb = paths[pname]
                 if specs is not None:
                     hit = False
@@ -99,7 +113,10 @@ def install(M):
                             break
                     if not hit:
                         continue
-                out += list(b':100644 100644 ' + b'1' * 40 + b' ' + b'2' * 40 + b' M') + [0] + list(pb) + [0]
+                if status == 'D':
+                    out += list(b':100644 000000 ' + b'1' * 40 + b' ' + b'0' * 40 + b' D') + [0] + list(pb) + [0]
+                else:
+                    out += list(b':100644 100644 ' + b'1' * 40 + b' ' + b'2' * 40 + b' M') + [0] + list(pb) + [0]
         return ok(Agg('std::process::Output', [Opaque('ExitStatus', 0), VecV([b if isinstance(b, Sc) else Sc(b, 8) for b in out]), VecV([])]))
 
     def note_oids(P, c, args, dt):
@@ -176,8 +193,11 @@ def world(h, n, defects, diffs=True):
         defect = (commits[k // 2], 'missing' if k % 2 == 0 else 'empty_tree') if commits else None
     for i in range(n):
         trees[tree_of('o%d' % i)] = {'p0': 0, 'p1': 0, 'u': 0}
-        d = 0 if (defects or not diffs) else h.choice(4)
-        trees[tree_of('n%d' % i)] = {'p0': d & 1, 'p1': (d >> 1) & 1, 'u': 1}
+        d = 0 if (defects or not diffs) else h.choice(5)
+        if d == 4:
+            trees[tree_of('n%d' % i)] = {'p0': 0, 'p1': None, 'u': 1}      # the rewritten commit deleted a tracked file
+        else:
+            trees[tree_of('n%d' % i)] = {'p0': d & 1, 'p1': (d >> 1) & 1, 'u': 1}
         agrees.append(d == 0)
         diffs.append(d)
     st = {'trees': trees, 'paths': paths, 'notes': {}, 'diffs': diffs}
